@@ -104,6 +104,52 @@ def adjoint_sees_forward_noise(method, adjoint_method, levy):
     return rec.mismatch, rec.n_back
 
 
+def wrapper_repeat(rnd, kind):
+    """BrownianPath / BrownianTree / ReverseBrownian with w0 != 0: interval AND point queries asked again (also at
+    dyadic points, the end point, after other queries) return bit-identical tensors."""
+    import torchsde
+    from torchsde._brownian import ReverseBrownian
+    fails = []
+    w0 = torch.tensor([[0.5, -1.0, 2.0], [2.0, 0.25, -0.75]], dtype=torch.float64)
+    with warnings.catch_warnings():
+        warnings.simplefilter("ignore")
+        if kind == "path":
+            bm = torchsde.BrownianPath(t0=0.0, w0=w0)
+        elif kind == "tree":
+            bm = torchsde.BrownianTree(t0=0.0, w0=w0, t1=1.0, tol=2.0 ** -9, entropy=rnd.randrange(1000))
+        elif kind == "tree_w1":
+            bm = torchsde.BrownianTree(t0=0.0, w0=w0, t1=1.0, w1=w0 + 0.5, tol=2.0 ** -9, entropy=rnd.randrange(1000))
+        else:
+            base = torchsde.BrownianInterval(-1.0, 0.0, size=(2, 3), dtype=torch.float64, entropy=rnd.randrange(1000),
+                                             levy_area_approximation="space-time", cache_size=2)
+            bm = ReverseBrownian(base)
+        pts = [0.5, 1.0, 0.25, 0.75, 0.125] + [rnd.randrange(1, 64) / 64 for _ in range(4)]
+        first = {}
+        ops = []
+        for t in pts:
+            if kind != "reverse":
+                ops.append(("pt", t))
+            a, b = sorted((t, rnd.randrange(0, 65) / 64))
+            if a < b:
+                ops.append(("iv", a, b))
+        ops = ops + ops[::-1] + ops
+        for op in ops:
+            if op[0] == "pt":
+                out = bm(op[1])
+            elif kind == "reverse":
+                out = torch.cat([x for x in bm(op[1], op[2], return_U=True)])
+            else:
+                out = bm(op[1], op[2])
+            if op in first:
+                if not torch.equal(first[op], out):
+                    fails.append(("wrapper_repeat", dict(wrapper=kind, op=list(op),
+                                                         diff=float((first[op] - out).abs().max()))))
+                    break
+            else:
+                first[op] = out.clone()
+    return fails
+
+
 def run(ctx):
     quick = ctx.tier == "quick"
     cat = BR.catalogue(ctx.tier)
@@ -174,6 +220,14 @@ def run(ctx):
             if bad is not None:
                 ctx.violation(dict(kind="sweep_repeat", tol=tol, halfway=half), f"step {bad} differs",
                               replay=dict(n=n, tol=tol, halfway=half))
+
+    # ---- through the wrappers ---------------------------------------------------------------------
+    for rep in range(3 if quick else 30):
+        for kind in ("path", "tree", "tree_w1", "reverse"):
+            fails = wrapper_repeat(random.Random(f"{ctx.seed}:{kind}:{rep}"), kind)
+            ctx.case(("wrapper", kind, rep), sample=dict(wrapper=kind, rep=rep))
+            for k_, det in fails:
+                ctx.violation(dict(kind=k_, wrapper=kind), f"{k_}: {det}", replay=dict(wrapper=kind, rep=rep))
 
     # ---- the backward (adjoint) pass sees the forward noise ------------------------------------
     for method, adj, levy in (("midpoint", "midpoint", "none"), ("reversible_heun", "adjoint_reversible_heun", "none"),
